@@ -546,6 +546,17 @@ pub type AnyOfFn = Box<dyn Fn(&[u8], &[u8]) -> Option<usize>>;
 
 pub const SET: [u8; 20] = [0x00, 0xFF, 0x80, 0x7F, b'A', b'z', 0x01, 0xFE, 0x81, 0x20, 0x0A, 0x2C, 0x3B, 0x09, 0xC3, 0xE2, 0xF0, 0x5C, 0x22, 0x27];
 
+/// `kind` 0: the first `k` bytes of SET (contains 0x00, so NUL bytes of the haystack are members);
+/// `kind` 1: the same without 0x00 — haystack NULs are then NON-members, which is what a kernel that treats
+/// its zero-padded set register as part of the set gets wrong.
+pub fn set_of(kind: u8, k: usize) -> Vec<u8> {
+    if kind == 0 {
+        SET[..k].to_vec()
+    } else {
+        SET[1..].iter().copied().chain([0x7Eu8]).take(k).collect()
+    }
+}
+
 pub fn anyof_spec(name: &str, f: AnyOfFn) -> Spec {
     let gen = move |tier: Tier, out: &mut dyn FnMut(Case) -> bool| {
         let lens = tier.pick(grid_lens(), all_lens());
@@ -558,8 +569,13 @@ pub fn anyof_spec(name: &str, f: AnyOfFn) -> Spec {
                             if v == 1 && k < 2 {
                                 continue;
                             }
-                            if !out(Case { n, a, c, k, v, ..Default::default() }) {
-                                return;
+                            for kind in [0u8, 1] {
+                                if kind == 1 && k == 0 {
+                                    continue;
+                                }
+                                if !out(Case { n, a, c, k, v, b: kind, ..Default::default() }) {
+                                    return;
+                                }
                             }
                         }
                     }
@@ -570,7 +586,7 @@ pub fn anyof_spec(name: &str, f: AnyOfFn) -> Spec {
     let run = move |case: &Case| -> Outcome {
         let n = case.n as usize;
         let k = case.k as usize;
-        let set_v: Vec<u8> = SET[..k].to_vec();
+        let set_v: Vec<u8> = set_of(case.b, k);
         let set = place(1, if case.a == G { G } else { 5 }, &set_v);
         let base: Vec<u8> = content(case.c, n).into_iter().map(|b| if set_v.contains(&b) { 0x62 } else { b }).collect();
         let hay = place(0, case.a, &base);
@@ -611,7 +627,7 @@ pub fn anyof_spec(name: &str, f: AnyOfFn) -> Spec {
     };
     Spec {
         name: name.to_string(),
-        space: "character-set search: haystack length {quick: grid; thorough: every 0..=260} x alignment {quick: 0,1,guard-ended; thorough: 16 values} x contents {ascending, >=0x80, embedded NUL; set members replaced by 'b'} x set size {quick: 0,1,2,3,8,15,16,17,20; thorough: 0..=18,20} (set = prefix of 00,FF,80,7F,'A','z',01,FE,81,' ',LF,',',';',TAB,C3,E2,F0,'\\','\"',''') x planted member {first, last}; inner loop: absent, member planted at EVERY position with a later member at the end; oracle: position(|b| set.contains(b))".into(),
+        space: "character-set search: haystack length {quick: grid; thorough: every 0..=260} x alignment {quick: 0,1,guard-ended; thorough: 16 values} x contents {ascending, >=0x80, embedded NUL; set members replaced by 'b'} x set size {quick: 0,1,2,3,8,15,16,17,20; thorough: 0..=18,20} x set kind {with 0x00, without 0x00 (haystack NULs are non-members)} (set = prefix of 00,FF,80,7F,'A','z',01,FE,81,' ',LF,',',';',TAB,C3,E2,F0,'\\','\"',''') x planted member {first, last}; inner loop: absent, member planted at EVERY position with a later member at the end; oracle: position(|b| set.contains(b))".into(),
         gen: Box::new(gen),
         run: Box::new(run),
         isolate: false,
@@ -631,8 +647,13 @@ pub fn multi_spec(name: &str, f: MultiFn) -> Spec {
             for a in few_aligns(tier) {
                 for c in CONTENTS {
                     for &k in &ks {
-                        if !out(Case { n, a, c, k, ..Default::default() }) {
-                            return;
+                        for kind in [0u8, 1] {
+                            if kind == 1 && k == 0 {
+                                continue;
+                            }
+                            if !out(Case { n, a, c, k, b: kind, ..Default::default() }) {
+                                return;
+                            }
                         }
                     }
                 }
@@ -642,7 +663,7 @@ pub fn multi_spec(name: &str, f: MultiFn) -> Spec {
     let run = move |case: &Case| -> Outcome {
         let n = case.n as usize;
         let k = case.k as usize;
-        let set_v: Vec<u8> = SET[..k].to_vec();
+        let set_v: Vec<u8> = set_of(case.b, k);
         let set = place(1, if case.a == G { G } else { 5 }, &set_v);
         let scalar = |h: &[u8]| -> (Vec<usize>, Vec<u8>) {
             let mut p = Vec::new();
